@@ -244,9 +244,28 @@ def _op_part(g, res):
                               "detail": {"grid": U.spec_id(g.spec), "face": [ax, list(idx)]}})
 
 
+def _stencil_fields(g, ax, idx, alphabet=(0.0, 1.0, 2.0)):
+    """Lines longer than 5 cells: all assignments of the alphabet to the four cells the correction on face (ax, idx)
+    can see (two on either side, clipped at the ends), lifted along the other axes, twice: zero and one elsewhere."""
+    n = g.fshape[ax]
+    k = idx[ax]                         # face between ghost-inclusive cells k and k+1
+    cells = [c for c in (k - 1, k, k + 1, k + 2) if 0 <= c < n]
+    out = []
+    for bg in (0.0, 1.0):
+        for vals in itertools.product(alphabet, repeat=len(cells)):
+            line = np.full(n, bg)
+            line[cells] = vals
+            sh = [1] * g.d
+            sh[ax] = n
+            out.append(np.broadcast_to(line.reshape(sh), g.fshape).copy())
+    return out
+
+
 def _line_fields(g, alphabet=(0.0, 1.0, 2.0)):
     out = []
     for ax in range(g.d):
+        if g.fshape[ax] > 5:
+            continue                    # long lines: per-face stencil enumeration (_stencil_fields)
         for line in itertools.product(alphabet, repeat=g.fshape[ax]):
             sh = [1] * g.d
             sh[ax] = g.fshape[ax]
@@ -269,7 +288,7 @@ def _tvd_part(g, res, tier="quick"):
             continue
         for sgn in (1.0, -1.0):
             u = g.unit_face(ax, idx, sgn)
-            for fld in fields:
+            for fld in (fields if g.fshape[ax] <= 5 else fields + _stencil_fields(g, ax, idx)):
                 # a field constant along `ax` gives psi = 0 identically: skip (trivial)
                 if np.all(np.diff(fld, axis=ax) == 0):
                     continue
